@@ -136,13 +136,17 @@ def build(S):
     static_obligations(S)
     S.contract("Mesh.__init__[option consistency]", FN_M, run_mesh_option_mismatch, shape="one shared, one equilibrium-only, one mesh-only option")
     from vc.shim import numpy_shimmed
-    from . import C08
+    from . import C08, C09
 
     with numpy_shimmed():
         # documented shape of every 2-d variable: what reaches the file, and from where
         S.under_contract(C08.FN_GEO, "hypnotoad.core.mesh:BoutMesh.writeArray")
         S.contract("geometry[assembly of global arrays]", C08.FN_GEO, C08.run_assembly, shape="4 regions, all values symbolic")
         S.contract("writeArray/writeCorners/writeArrayXDirection", "hypnotoad.core.mesh:BoutMesh.writeArray", C08.run_write_arrays, shape="nx=ny=2")
+        # refusal guard of connected double nulls whose separatrices differ (else the SOL grid folds over the second X-point)
+        S.under_contract("hypnotoad.cases.tokamak:TokamakEquilibrium.describeDoubleNull")
+        for topo in ("cdn_unbalanced", "cdn_upper_primary"):
+            S.contract("connected-double-null guard[%s]" % topo, "hypnotoad.cases.tokamak:TokamakEquilibrium.describeDoubleNull", C09.run_wiring(topo), expected_exceptions=(ValueError,), raises_ok=lambda p: True, shape="sizes and first SOL surfaces symbolic")
 
 
 def post(S):
